@@ -18,6 +18,12 @@ type Session interface {
 	// SetCryptographer sets the new cryptographer used for en-/decryption
 	SetCryptographer(c crypto.Cryptographer)
 
+	// SetDecrypter sets the decrypter for incoming data
+	SetDecrypter(d crypto.Decrypter)
+
+	// SetEncrypter sets the encrypter for outgoing data
+	SetEncrypter(e crypto.Encrypter)
+
 	// PairSetupHandler returns the pairing setup handler
 	PairSetupHandler() ContainerHandler
 
@@ -39,18 +45,17 @@ type Session interface {
 }
 
 type session struct {
-	cryptographer     crypto.Cryptographer
+	// The encrypter and the decrypter are set separately when a connection switches to a
+	// (new) secure session: incoming data is read with the new keys as soon as the response
+	// which completes the verification is on its way, outgoing data is written with the new
+	// keys after that response.
+	encrypter         crypto.Encrypter
+	decrypter         crypto.Decrypter
 	pairStartHandler  ContainerHandler
 	pairVerifyHandler PairVerifyHandler
 	connection        net.Conn
 	mu                *sync.Mutex
 	subs              map[*characteristic.Characteristic]bool
-
-	// Temporary variable to reference next cryptographer
-	nextCryptographer crypto.Cryptographer
-
-	// nextWritten is true when the response following SetCryptographer() was written
-	nextWritten bool
 }
 
 // NewSession returns a session for a connection.
@@ -72,32 +77,14 @@ func (s *session) Decrypter() crypto.Decrypter {
 	s.mu.Lock()
 	defer s.mu.Unlock()
 
-	// Return the next cryptographer when possible
-	// This allows sessions to switch encryption
-	//
-	// The switch must not happen before the response of the request which negotiated
-	// the next cryptographer was written (see Encrypter). Otherwise a read, which is
-	// started in the background while the request is still handled, encrypts that response.
-	if s.nextCryptographer != nil && s.nextWritten {
-		s.cryptographer = s.nextCryptographer
-		s.nextCryptographer = nil
-		s.nextWritten = false
-	}
-
-	return s.cryptographer
+	return s.decrypter
 }
 
 func (s *session) Encrypter() crypto.Encrypter {
 	s.mu.Lock()
 	defer s.mu.Unlock()
 
-	if s.nextCryptographer != nil {
-		// The pending response is written with the current cryptographer,
-		// the following request is read with the next one.
-		s.nextWritten = true
-	}
-
-	return s.cryptographer
+	return s.encrypter
 }
 
 func (s *session) PairSetupHandler() ContainerHandler {
@@ -108,15 +95,27 @@ func (s *session) PairVerifyHandler() PairVerifyHandler {
 	return s.pairVerifyHandler
 }
 
+// SetCryptographer sets the cryptographer for both directions at once.
+// Use SetDecrypter and SetEncrypter to switch while a response is still to be written.
 func (s *session) SetCryptographer(c crypto.Cryptographer) {
-	// Temporarily set the cryptographer as the nextCryptographer
-	// The nextCryptographer is used the next time Decrypter() is called.
-	// Otherwise the Encrypter() encrypts differently than the previous Decrypter()
 	s.mu.Lock()
-	s.nextCryptographer = c
-	s.nextWritten = false
+	s.encrypter = c
+	s.decrypter = c
 	s.mu.Unlock()
 }
+
+func (s *session) SetDecrypter(d crypto.Decrypter) {
+	s.mu.Lock()
+	s.decrypter = d
+	s.mu.Unlock()
+}
+
+func (s *session) SetEncrypter(e crypto.Encrypter) {
+	s.mu.Lock()
+	s.encrypter = e
+	s.mu.Unlock()
+}
+
 func (s *session) SetPairSetupHandler(c ContainerHandler) {
 	s.pairStartHandler = c
 }
